@@ -21,7 +21,23 @@ def exec_source(src: str, name: str = "d") -> Dict[str, Any]:
     return ns
 
 
-def build_gprog(prog, returns: str = "all"):
+class _NoFrames:
+    """Stand-in for the `inspect` module in tawazi.node.node: an interpreter without stack frame support."""
+
+    def currentframe(self):
+        return None
+
+
+def build_gprog(prog, returns: str = "all", noloc: bool = False):
+    if noloc:
+        import tawazi.node.node as NN
+
+        real = NN.inspect
+        NN.inspect = _NoFrames()
+        try:
+            return build_gprog(prog, returns)
+        finally:
+            NN.inspect = real
     H.Tok.FALSY = set(prog.falsy)
     ids = prog.ids()
     H.FAIL.clear()
